@@ -57,6 +57,8 @@ pub struct InputSpec {
     pub min: Option<Amount>,
     pub redeemer: bool,
     pub datum_is: bool,
+    /// `datum_is: Int` instead of `datum_is: Rec`: the whole datum is one integer
+    pub datum_int: bool,
 }
 
 #[derive(Clone, Debug)]
@@ -69,6 +71,10 @@ pub enum DatumSpec {
     FromInput(String, Q),
     /// Rec { a: input.l[<q>], b: input.b, l: input.l }
     Index(String, Q),
+    /// Rec { a: input.a - <q>, b: input.b, l: input.l }  (the left operand is nothing when the UTxO has no datum)
+    FromInputSub(String, Q),
+    /// `datum: input - <q>` / `datum: input + <q>` for an input declared `datum_is: Int`
+    Whole(String, bool, Q),
 }
 
 #[derive(Clone, Debug)]
@@ -256,7 +262,7 @@ impl Program {
             s.push_str(&format!("        from: {},\n", self.parties[f].name));
         }
         if i.datum_is {
-            s.push_str("        datum_is: Rec,\n");
+            s.push_str(if i.datum_int { "        datum_is: Int,\n" } else { "        datum_is: Rec,\n" });
         }
         if let Some(r) = &i.ref_param {
             s.push_str(&format!("        ref: {},\n", r));
@@ -326,6 +332,19 @@ impl Program {
                 }
                 Some(DatumSpec::FromInput(i, q)) => s.push_str(&format!(
                     "        datum: Rec {{ a: {}.a + {}, b: {}.b, l: {}.l, }},\n",
+                    i,
+                    pq(q),
+                    i,
+                    i
+                )),
+                Some(DatumSpec::Whole(i, sub, q)) => s.push_str(&format!(
+                    "        datum: {} {} {},\n",
+                    i,
+                    if *sub { "-" } else { "+" },
+                    pq(q)
+                )),
+                Some(DatumSpec::FromInputSub(i, q)) => s.push_str(&format!(
+                    "        datum: Rec {{ a: {}.a - {}, b: {}.b, l: {}.l, }},\n",
                     i,
                     pq(q),
                     i,
@@ -447,6 +466,8 @@ pub struct GenCfg {
     pub rich_directives: bool,
     /// more optional outputs with amounts that evaluate to zero
     pub optional_bias: bool,
+    /// more inputs with `datum_is` and more outputs whose datum reads them
+    pub datum_bias: bool,
 }
 
 fn small_q(t: &mut Tape, params: &mut Vec<(String, Ty)>, hint: &str) -> Q {
@@ -580,8 +601,9 @@ fn gen_tx(t: &mut Tape, cfg: &GenCfg, p: &mut Program, k: usize) -> TxSpec {
             None
         };
         let min = gen_min(t, cfg, p, &mut params, &named);
-        let datum_is = cfg.profile == Profile::Rich && t.chance(1, 5);
-        if datum_is {
+        let datum_is = cfg.profile == Profile::Rich && t.chance(1, if cfg.datum_bias { 2 } else { 5 });
+        let datum_int = datum_is && t.chance(1, 3);
+        if datum_is && !datum_int {
             p.has_rec = true;
         }
         tx.inputs.push(InputSpec {
@@ -594,6 +616,7 @@ fn gen_tx(t: &mut Tape, cfg: &GenCfg, p: &mut Program, k: usize) -> TxSpec {
             min,
             redeemer: cfg.profile == Profile::Rich && t.chance(1, 6),
             datum_is,
+            datum_int,
         });
     }
     if t.chance(1, 5) {
@@ -606,6 +629,7 @@ fn gen_tx(t: &mut Tape, cfg: &GenCfg, p: &mut Program, k: usize) -> TxSpec {
             min,
             redeemer: false,
             datum_is: false,
+            datum_int: false,
         });
     }
     if cfg.profile == Profile::Rich && t.chance(1, 6) {
@@ -856,16 +880,21 @@ fn gen_datum(t: &mut Tape, cfg: &GenCfg, p: &mut Program, tx: &TxSpec, params: &
     if cfg.profile != Profile::Rich && cfg.profile != Profile::Boundary {
         return None;
     }
-    if !t.chance(1, 5) {
+    if !t.chance(1, if cfg.datum_bias { 2 } else { 5 }) {
         return None;
     }
-    p.has_rec = true;
     let with_datum: Vec<&InputSpec> = tx.inputs.iter().filter(|i| i.datum_is).collect();
     if !with_datum.is_empty() && t.chance(2, 3) {
-        let i = with_datum[t.index(with_datum.len())].name.clone();
-        match t.draw(3) {
+        let chosen = with_datum[t.index(with_datum.len())];
+        let i = chosen.name.clone();
+        if chosen.datum_int {
+            return Some(DatumSpec::Whole(i, t.chance(1, 2), small_q(t, params, "x")));
+        }
+        p.has_rec = true;
+        match t.draw(4) {
             0 => Some(DatumSpec::Spread(small_q(t, params, "x"), i)),
             1 => Some(DatumSpec::FromInput(i, small_q(t, params, "x"))),
+            3 => Some(DatumSpec::FromInputSub(i, small_q(t, params, "x"))),
             _ => {
                 // index into the list field: a literal or an Int parameter
                 let q = if t.chance(1, 2) {
@@ -879,6 +908,7 @@ fn gen_datum(t: &mut Tape, cfg: &GenCfg, p: &mut Program, tx: &TxSpec, params: &
             }
         }
     } else {
+        p.has_rec = true;
         Some(DatumSpec::Rec(small_q(t, params, "x")))
     }
 }
@@ -894,6 +924,9 @@ pub enum AmountDist {
     /// around coins_per_utxo_byte x (plausible output sizes): where a min_utxo(..) threshold
     /// computed from one body or another decides whether a UTxO covers it
     Threshold(u64, u64),
+    /// many UTxOs of almost the same value (change of one faucet, a batch payout): differences of
+    /// a few units of the selector's logarithmic scale, i.e. near-ties that are not ties
+    Cluster(i128),
 }
 
 pub struct LedgerCfg {
@@ -910,6 +943,11 @@ pub fn draw_lovelace(t: &mut Tape, dist: &AmountDist) -> i128 {
         AmountDist::Small => t.draw(6) as i128 * 1_000_000,
         AmountDist::Comfortable => 50_000_000 + t.draw(950) as i128 * 1_000_000,
         AmountDist::Tight => *t.pick(&[2_000_000i128, 1_000_000, 3_000_000, 5_000_000, 2_200_000, 10_000_000, 12_000_000]),
+        AmountDist::Cluster(base) => {
+            // one unit of the coin selector's log scale is a relative step of about 2e-8
+            let unit = (*base / 48_000_000).max(1);
+            *base + t.draw(48) as i128 * unit + t.draw(3) as i128
+        }
         AmountDist::Threshold(cpb, center) => {
             // every UTxO of the ledger within a few bytes' worth of one size: whether the best
             // candidate covers a threshold then hinges on which body sized it
@@ -969,7 +1007,10 @@ pub fn gen_ledger(t: &mut Tape, w: &mut crate::world::World, p: &Program, cfg: &
             }
             tie_val = Some(v.clone());
         }
-        let datum = if p.has_rec && t.chance(1, 2) {
+        let any_int = p.txs.iter().any(|tx| tx.inputs.iter().any(|i| i.datum_int));
+        let datum = if any_int && t.chance(1, 3) {
+            Some(tir::Expression::Number(t.draw(1000) as i128))
+        } else if p.has_rec && t.chance(1, 2) {
             Some(tir::Expression::Struct(tir::StructExpr {
                 constructor: 0,
                 fields: vec![
